@@ -14,6 +14,7 @@ func (w *verifWorld) hold(who, phase string) {
 		return
 	}
 	w.holding = true
+	w.heldSince = w.count("platform", "invoke-returned", "")
 	verifSettle()
 	w.note(who, "held-until-quiescence", phase)
 	if w.onHold != nil {
@@ -31,6 +32,10 @@ func (w *verifWorld) healthyRuntime(nInvokes int, payload string, nInternal int)
 			name := fmt.Sprintf("internal%d", j)
 			verifSpawnEnv(func() {
 				iwho := "internal:" + name
+				if verifLateInternal {
+					verifWaitUntil(func() bool { return w.first(who, "next-issued", "") > 0 || p.dead })
+					verifReach("late-internal")
+				}
 				rec := w.extRegister(iwho, name, []string{"INVOKE"})
 				if rec.status != 200 {
 					return
@@ -52,6 +57,10 @@ func (w *verifWorld) healthyRuntime(nInvokes int, payload string, nInternal int)
 					w.note(iwho, "got-event", "INVOKE")
 				}
 			})
+		}
+		if verifHoldBack && nInternal > 0 {
+			// the internal extensions register before the runtime asks for its first invocation
+			verifWaitUntil(func() bool { return w.countWhat("register-returned")-w.countExtRegistered() >= nInternal || p.dead })
 		}
 		for i := 0; i <= nInvokes; i++ {
 			if p.dead {
@@ -153,6 +162,7 @@ func verifInitInvoke(nExt int, subs []string, nInv int, nInt int) {
 	// any one party may be held back arbitrarily long (until nothing else can happen)
 	var ir *verifInitResult
 	invokesDone := 0
+	_ = invokesDone
 	if verifHoldBack {
 		parties := []string{"", "runtime-"}
 		for i := 0; i < nExt; i++ {
@@ -164,6 +174,7 @@ func verifInitInvoke(nExt int, subs []string, nInv int, nInt int) {
 		w.holdWho = parties[verifChoice(len(parties), "party held back")]
 		w.onHold = func(who, phase string) {
 			verifReach("held-" + phase)
+			verifReach("held-" + phase + "-" + who)
 			switch phase {
 			case "register":
 				verifAssert(w.countPrefix("supervisor", "exec", "runtime-") == 0, "the runtime is not started while an external extension has not registered")
@@ -178,7 +189,7 @@ func verifInitInvoke(nExt int, subs []string, nInv int, nInt int) {
 					}
 				}
 				if sub {
-					verifAssert(w.count("platform", "invoke-returned", "") == invokesDone, "an invocation is not complete while the runtime or an INVOKE subscriber has not asked for next")
+					verifAssert(w.count("platform", "invoke-returned", "") == w.heldSince, "an invocation is not complete while the runtime or an INVOKE subscriber has not asked for next")
 				}
 			}
 		}
@@ -290,6 +301,10 @@ func verifInitInvoke(nExt int, subs []string, nInv int, nInt int) {
 	}
 	_ = initEnd
 	w.CheckEventGrammar()
+	if verifHoldBack {
+		// a party that is still held back gets its turn (and its check) before the harness ends
+		verifWaitUntil(func() bool { return !w.holding })
+	}
 	verifReach("done")
 }
 
@@ -300,6 +315,16 @@ func VerifC03Held2IS()  { verifHoldBack = true; verifInitInvoke(2, []string{"I",
 func VerifC03Held1I1()  { verifHoldBack = true; verifInitInvoke(1, []string{"I"}, 1, 1) }
 func VerifC04Held2_2()  { verifHoldBack = true; verifInitInvoke(2, []string{"I", ""}, 2, 0) }
 func VerifC04Held2_I1() { verifHoldBack = true; verifInitInvoke(1, []string{"I"}, 2, 1) }
+
+// only an INTERNAL extension subscribes to INVOKE (none, or a SHUTDOWN-only external one)
+func VerifC04Held0_I1()  { verifHoldBack = true; verifInitInvoke(0, nil, 2, 1) }
+func VerifC04Held1S_I1() { verifHoldBack = true; verifInitInvoke(1, []string{"S"}, 2, 1) }
+
+// an internal extension that registers LATE: only when the runtime has issued its first next
+// (the window in which registration is being closed): accepted => awaited, else refused
+func VerifC03LateInternal() { verifLateInternal = true; verifInitInvoke(1, []string{"I"}, 1, 1) }
+
+var verifLateInternal bool
 
 func VerifC03Init0()      { verifInitInvoke(0, nil, 1, 0) }
 func VerifC03Init1I()     { verifInitInvoke(1, []string{"I"}, 1, 0) }
@@ -312,3 +337,14 @@ func VerifC04Invoke2_1()  { verifInitInvoke(1, []string{"IS"}, 2, 0) }
 func VerifC04Invoke2_2()  { verifInitInvoke(2, []string{"I", ""}, 2, 0) }
 func VerifC04Invoke3_1()  { verifInitInvoke(1, []string{"I"}, 3, 0) }
 func VerifC04Invoke2_I1() { verifInitInvoke(1, []string{"I"}, 2, 1) }
+
+// registrations answered to external extension processes
+func (w *verifWorld) countExtRegistered() int {
+	n := 0
+	for _, e := range w.log {
+		if e.what == "register-returned" && strings.HasPrefix(e.who, "extension-") {
+			n++
+		}
+	}
+	return n
+}
